@@ -334,7 +334,127 @@ def eng_bad(prop, tier, seed):
     return [(out, 0, "")]
 
 
-ENGINES = {"l1": eng_l1, "l2": eng_l2, "key": eng_key, "conc": eng_conc, "bad": eng_bad}
+MIRI_PROGS = {
+    # property -> (program, kind of seeds, default property of an assertion failure)
+    "C16": ("miri_seq", "argv"),
+    "C17": ("miri_conc", "many"),
+    "C18": ("miri_conc", "many"),
+    "C20": ("miri_poll", "many"),
+}
+
+
+def eng_miri(prop, tier, seed):
+    """Secondary monitor, thorough tier only: tiny programs under Miri (UB, data races, leaks and
+    Miri's own deadlock detection under its randomised preemptive scheduler)."""
+    out = os.path.join(OUT, f"{prop}-miri-0.json")
+    rep = {"counters": {prop: {}, "MIRI": {}}, "distinct": {}, "samples": {}, "violations": [], "inconclusive": [], "notes": []}
+    if tier != "thorough" and not os.environ.get("VERIF_MIRI"):
+        json.dump(rep, open(out, "w"))
+        return [(out, 0, "")]
+    prog, kind = MIRI_PROGS[prop]
+    env = dict(ENV, CARGO_TARGET_DIR=os.path.join(TARGET, "miri"))
+    n = int(os.environ.get("VERIF_MIRI_SEEDS", "0")) or (6 if kind == "argv" else 48)
+    runs = []
+    if kind == "argv":
+        for i in range(n):
+            runs.append((["cargo", "+nightly", "miri", "run", "--offline", "-p", "miriprogs", "--bin", prog, "--", str(seed * 100 + i)], "-Zmiri-disable-isolation", f"seed {seed*100+i}"))
+    else:
+        lo = (seed % 1000) * 1000
+        runs.append((["cargo", "+nightly", "miri", "run", "--offline", "-p", "miriprogs", "--bin", prog], f"-Zmiri-disable-isolation -Zmiri-many-seeds={lo}..{lo+n}", f"seeds {lo}..{lo+n}"))
+    ok_runs = 0
+    t0 = time.time()
+    for argv, flags, what in runs:
+        try:
+            r = subprocess.run(argv, cwd=HARNESS, env=dict(env, MIRIFLAGS=flags), stdout=subprocess.PIPE, stderr=subprocess.STDOUT, text=True, timeout=3600)
+        except subprocess.TimeoutExpired:
+            rep["inconclusive"].append({"property": prop, "why": f"Miri run {prog} {what} exceeded its watchdog"})
+            continue
+        okc = r.stdout.count("MIRI-OK")
+        ok_runs += okc
+        if r.returncode != 0:
+            txt = r.stdout
+            if "could not compile" in txt and "error[" in txt:
+                log(txt[-3000:])
+                log("HARNESS-ERROR: Miri programs do not build (not a property verdict)")
+                sys.exit(2)
+            if "deadlock" in txt:
+                kindv, p2 = "miri-deadlock", "C17"
+            elif "Data race detected" in txt:
+                kindv, p2 = "miri-data-race", "C18"
+            elif "Undefined Behavior" in txt:
+                kindv, p2 = "miri-undefined-behaviour", prop
+            elif "panicked" in txt:
+                kindv, p2 = "miri-program-assertion-failed", prop
+            elif "memory leaked" in txt:
+                kindv, p2 = "miri-leak", prop
+            else:
+                rep["inconclusive"].append({"property": prop, "why": f"Miri run {prog} {what} failed without a recognised diagnosis: {txt[-300:]}"})
+                continue
+            tail = "\n".join([l for l in txt.splitlines() if l.strip()][-40:])
+            rep["violations"].append({"property": p2 if p2 == prop else p2, "sig": f"{p2}|MIRI|{prog}|-|{kindv}|", "what": f"Miri: {kindv} in {prog} ({what})", "witness": {"monitor": "miri", "program": prog, "flags": flags, "argv": argv, "output_tail": tail}})
+    rep["counters"]["MIRI"]["programs"] = ok_runs
+    rep["counters"][prop]["miri_executions_clean"] = ok_runs
+    rep["distinct"][prop] = {"n": ok_runs, "hashes": [f"miri-{prog}-{i}" for i in range(ok_runs)]}
+    rep["notes"].append(f"miri {prog}: {ok_runs} clean executions, wall {time.time()-t0:.0f}s")
+    json.dump(rep, open(out, "w"))
+    return [(out, 0, "")]
+
+
+def eng_tsan(prop, tier, seed):
+    """Secondary monitor, thorough tier only: the jitter-mode concurrency workload rebuilt with
+    ThreadSanitizer (-Zsanitizer=thread -Zbuild-std); every data-race report is a violation."""
+    out = os.path.join(OUT, f"{prop}-tsan-0.json")
+    rep = {"counters": {prop: {}, "TSAN": {}}, "distinct": {}, "samples": {}, "violations": [], "inconclusive": [], "notes": []}
+    if tier != "thorough" and not os.environ.get("VERIF_TSAN"):
+        json.dump(rep, open(out, "w"))
+        return [(out, 0, "")]
+    tdir = os.path.join(TARGET, "tsan")
+    env = dict(ENV, CARGO_TARGET_DIR=tdir, RUSTFLAGS="-Zsanitizer=thread")
+    t0 = time.time()
+    r = subprocess.run(["cargo", "+nightly", "build", "-Zbuild-std", "--target", "x86_64-unknown-linux-gnu", "--release", "--offline", "-p", "l2", "--bin", "concmon", "--features", "noclock"],
+                       cwd=HARNESS, env=env, stdout=subprocess.PIPE, stderr=subprocess.STDOUT, text=True)
+    if r.returncode != 0:
+        log(r.stdout[-3000:])
+        rep["inconclusive"].append({"property": prop, "why": "ThreadSanitizer build failed"})
+        json.dump(rep, open(out, "w"))
+        return [(out, 0, "")]
+    logdir = os.path.join(OUT, f"tsan-{prop}")
+    shutil.rmtree(logdir, ignore_errors=True)
+    os.makedirs(logdir)
+    n = int(os.environ.get("VERIF_TSAN_SCENARIOS", "0")) or 400
+    exe = os.path.join(tdir, "x86_64-unknown-linux-gnu", "release", "concmon")
+    cmds = []
+    shards = 8
+    for i in range(shards):
+        o = os.path.join(OUT, f"{prop}-tsanrun-{i}.json")
+        cmds.append((["env", f"TSAN_OPTIONS=halt_on_error=0 log_path={logdir}/log exitcode=0", exe, "--out", o, "--seed", str(seed), "--shard", f"{i}/{shards}", "--focus", prop, "--mode", "jitter", "--scenarios", str(n // shards)], o))
+    res = run_shards(f"{prop}-tsan", cmds, 7200)
+    races = {}
+    for f in glob.glob(os.path.join(logdir, "log*")):
+        txt = open(f, errors="replace").read()
+        for block in txt.split("==================")[1:]:
+            if "WARNING: ThreadSanitizer: data race" not in block:
+                continue
+            frames = [l.strip() for l in block.splitlines() if l.strip().startswith("#")]
+            repo_frames = [l for l in frames if "cachelito" in l and "/verif/" not in l]
+            key = (repo_frames[0].split(" ", 2)[-1] if repo_frames else "no-cachelito-frame")[:160]
+            races.setdefault(key, block[:2500])
+    for key, block in races.items():
+        if key == "no-cachelito-frame":
+            rep["notes"].append("ThreadSanitizer report without a cachelito frame (harness or dependency): not a verdict")
+            continue
+        rep["violations"].append({"property": prop, "sig": f"{prop}|TSAN|concmon|-|data-race|{key}", "what": f"ThreadSanitizer: data race, first cachelito frame {key}", "witness": {"monitor": "tsan", "report": block}})
+    merged = merge_reports([o for (_, o) in cmds])
+    sched = merged["counters"].get("CONC", {}).get("schedules", 0)
+    rep["counters"]["TSAN"]["schedules"] = sched
+    rep["counters"][prop]["tsan_schedules_without_race_report"] = sched if not races else 0
+    rep["violations"].extend(merged["violations"])
+    rep["notes"].append(f"tsan: {sched} jitter schedules, {len(races)} distinct race reports, wall {time.time()-t0:.0f}s")
+    json.dump(rep, open(out, "w"))
+    return [(out, 0, "")]
+
+
+ENGINES = {"tsan": eng_tsan, "l1": eng_l1, "l2": eng_l2, "key": eng_key, "conc": eng_conc, "bad": eng_bad, "miri": eng_miri}
 
 # property -> (engines, level, rule text, assumptions)
 PROPS = {}
@@ -381,7 +501,7 @@ prop("C07", ["l1", "l2", "conc"], "exploration",
 prop("C08", ["l1", "l2", "conc"], "exploration",
      L1_RULE + L2_RULE + CONC_RULE + "After a concurrent phase an entry that was certainly served from the cache must not be evicted while a certainly never-hit entry (sync caches: the newcomer) is available. " + "Non-trivial = an overflowing store under LFU/ARC/TLRU whose victim must be a score minimiser over the residents or over residents+newcomer; distinct = distinct (configuration, order shape, hit-count vector).",
      COMMON_ASSUME + ["sync engines always hold a zero-score newcomer, so for them the check only establishes that a zero-score entry was evicted (stated in DESIGN.md C08)"], ("C08", "victims_checked_with_unique_resident_minimiser"))
-prop("C16", ["l1", "l2"], "exploration",
+prop("C16", ["l1", "l2", "miri"], "exploration",
      L1_RULE + "Every operation runs under catch_unwind in a build with overflow checks and debug assertions. Non-trivial/distinct = configurations of the full product visited (each with overflow-heavy histories).",
      COMMON_ASSUME, ("C16", "ops_under_catch_unwind"))
 prop("C02", ["key", "l2"], "exploration",
@@ -390,11 +510,11 @@ prop("C02", ["key", "l2"], "exploration",
      "(render two neighbouring arguments with separators '', '|', ',', ' ', '\"|\"', ', ', move the boundary, re-parse); f(a); f(b); f(a) must execute twice and serve a its own serial; every 32 pairs the number of listed key strings must equal the number of distinct tuples stored. "
      "Non-trivial/distinct = distinct (function, a, b) pairs. " + L2_RULE + "There, a learned slot->key-string map must stay injective.",
      COMMON_ASSUME + ["'differ' means structural inequality of the argument values (0.0 and -0.0 differ; NaN is excluded)"], ("C02", "pairs"))
-prop("C17", ["conc"], "exploration",
+prop("C17", ["conc", "miri"], "exploration",
      CONC_RULE + "Non-trivial = a schedule that ran to completion or to a diagnosed deadlock.",
      COMMON_ASSUME + ["serial mode does not model writer preference of parking_lot's RwLock and takes first-use registration (Once/Lazy) out of the scheduled phase by a single-threaded warm-up; both are exercised only in jitter mode",
                       "schedules are sampled (random walk with bounded preemption), not enumerated"], ("C17", "schedules_completed_without_deadlock"))
-prop("C18", ["conc"], "exploration",
+prop("C18", ["conc", "miri", "tsan"], "exploration",
      CONC_RULE + "Non-trivial = a quiescent state reached after a concurrent phase and probed.",
      COMMON_ASSUME + ["queue entries whose key is no longer stored are tolerated, as the property says; a stored key the queue does not know shows up in the eviction probe (FIFO/LRU) or as an exceeded bound"], ("C18", "quiescent_states_checked"))
 prop("C03", ["l2", "conc"], "exploration",
@@ -428,7 +548,7 @@ prop("C19", ["bad", "l1", "l2"], "translation_validation",
      "(c) 66 invalid attribute lists (unknown names, typos, invalid policy/scope/limit/ttl/max_memory) must fail cargo check while the corrected twin of each compiles; borderline lists are reported without verdict. "
      + L2_RULE + "programs = corpus functions exercised + compile cases; distinct = distinct (function, cached?, cache size, second) observations plus compile cases.",
      COMMON_ASSUME + ["'behaves like the corresponding core cache' is checked against the same model the core engines are checked against at L1"], ("C19", "invalid_lists_checked"))
-prop("C20", ["l2"], "exploration",
+prop("C20", ["l2", "miri"], "exploration",
      L2_RULE + "Focus: #[cache_async] functions whose bodies contain 1-3 await points (gates the harness opens one at a time). The generated future is polled by hand: at every Pending the polling thread's stack of held locks "
      "(hooked lock_api: parking_lot and DashMap shard locks) must be empty and the cache listing / statistics must equal a model in which the call has only performed its lookup; while it is suspended other calls (same and different "
      "arguments, on the same and on other threads), invalidations and stats operations run to completion; the call is then resumed (must store normally: listing, stats, predicate consulted once) or dropped (cache and statistics unchanged). "
@@ -639,6 +759,9 @@ def replay(path):
         cargo_build(["l1"])
         r = subprocess.run([bin_path("l1mon"), "--replay", path, "--out", "/dev/null"], cwd=ROOT, env=ENV)
         sys.exit(r.returncode)
+    if mon == "miri":
+        r = subprocess.run(w["argv"], cwd=HARNESS, env=dict(ENV, CARGO_TARGET_DIR=os.path.join(TARGET, "miri"), MIRIFLAGS=w["flags"]))
+        sys.exit(1 if r.returncode != 0 else 0)
     if mon == "concmon":
         cargo_build(["l2"])
         r = subprocess.run([bin_path("concmon"), "--replay", path, "--out", "/dev/null"], cwd=ROOT, env=ENV)
